@@ -7,6 +7,8 @@
 //!          the real sync and async bgzf readers vs NV.Bgzf.ReaderOps / the pipeline model NV.Async.Reader
 //!   awr    <ops> <mode> <seed> <workers> <pool> <level>   (c16_model_rw.rs) block sequence + write amounts of the real
 //!          sync and async bgzf writers vs NV.Async.Writer (a_blocks / a_results)
+//!   abam   <data> <sizes> <with_pending> <chunk>   (c16_model_rw.rs) BAM record framing (read_exact_or_eof + take/read_to_end)
+//!          of the real sync and async bam readers over a raw record stream vs NV.Io.Run / NV.Async.ReadExact
 //! Implementation-only differential oracles (sync path vs async path on the same input, under a
 //! poll script): see `c16_fmt.rs` for the format-level kinds.
 //!   bgzfr  <file> <ops> <mode> <seed> <workers>     bgzf reader op transcript (bytes, vpos, seek)
@@ -900,6 +902,10 @@ fn generate(rng: &mut Rng, tier: &str, w: &mut CaseWriter) {
     for i in 0..n {
         c16_model_rw::gen_awr(rng, w, i % 6 == 0);
     }
+    let n = if thorough { 3000 } else { 250 };
+    for _ in 0..n {
+        c16_model_rw::gen_abam(rng, w);
+    }
     c16_fmt::generate(rng, tier, w);
 }
 
@@ -910,6 +916,7 @@ fn run(c: &Case) -> Obs {
         "bgzfw" => run_bgzfw(c),
         "ardr" => c16_model_rw::run_ardr(c),
         "awr" => c16_model_rw::run_awr(c),
+        "abam" => c16_model_rw::run_abam(c),
         k => match c16_fmt::run(c) {
             Some(o) => o,
             None => Obs::fail("-", "harness-unknown-kind", k),
